@@ -57,6 +57,9 @@ type vhpxRespSpec struct {
 	Body    *vhpxBody   `json:"body"`
 	Chunked bool        `json:"chunked"`
 	DelayMs int         `json:"delay_ms"`
+	// CutAfter > 0: the upstream dies after the headers and that many bytes of the body (no terminating chunk / fewer
+	// bytes than Content-Length announced), with a connection reset.
+	CutAfter int `json:"cut_after"`
 }
 
 type vhpxReqSpec struct {
@@ -577,6 +580,22 @@ func (u *vhpxUpstream) handle(conn net.Conn) {
 		fmt.Fprintf(&buf, "Content-Length: %d\r\n", len(respBody))
 	}
 	buf.WriteString("\r\n") // no "Connection: close": net/http drops the whole Connection header (and with it the other tokens) when it sees close
+	if spec.CutAfter > 0 && spec.CutAfter < len(respBody) && req.Method != http.MethodHead {
+		part := respBody[:spec.CutAfter]
+		if spec.Chunked {
+			fmt.Fprintf(&buf, "%x\r\n", len(part))
+			buf.Write(part)
+			buf.WriteString("\r\n")
+		} else {
+			buf.Write(part)
+		}
+		_, _ = conn.Write(buf.Bytes())
+		time.Sleep(60 * time.Millisecond) // let the proxy pass on what it has
+		if tc, ok := conn.(*net.TCPConn); ok {
+			_ = tc.SetLinger(0)
+		}
+		return
+	}
 	if req.Method != http.MethodHead {
 		if spec.Chunked {
 			vhpxChunked(&buf, respBody)
